@@ -77,7 +77,7 @@ class System:
     def fingerprint(self, world):
         s = world['s']
         try:
-            return (s._bitstore.immutable, getattr(s, '_pos', None))
+            return (s._bitstore.immutable, getattr(s, 'pos', None))
         except AttributeError:
             return 'degraded'
 
